@@ -310,6 +310,21 @@ func (node *Node) load(ctx context.Context) error {
 		return err
 	}
 
+	// The mempool is not stored. Put the delivered unconfirmed txs back in it so that conflicts
+	// with them are still detected after a restart.
+	unconfirmed, err := node.txs.GetUnconfirmed(ctx)
+	if err != nil {
+		return err
+	}
+	node.txs.ReleaseUnconfirmed(ctx)
+	for _, txid := range unconfirmed {
+		txState, err := internalStorage.FetchTxState(ctx, node.store, txid)
+		if err != nil {
+			continue
+		}
+		node.memPool.AddTransaction(ctx, txState.Tx, false)
+	}
+
 	node.messageHandlers = handlers.NewTrustedMessageHandlers(ctx, node.config, node.state,
 		node.peers, node.blocks, &node.blockRefeeder, node.txs, node.reorgs, node.txTracker,
 		node.memPool, &node.unconfTxChannel, node.handlers)
